@@ -33,7 +33,9 @@ logging.disable(logging.WARNING)
 TRUSTED = [
     "Coq 8.16.1 kernel + vm_compute",
     "translators harness/gen_analysis.py (modes guard, class tree), gen_shapes.py (dimension guard), gen_refine.py (start vector, "
-    "bounds), gen.py (sphere conversions) -- fail closed; Gen_shapes / Gen_refine fall back to the golden text",
+    "bounds), gen.py (sphere conversions) -- fail closed; when one of them fails closed (or its fresh text no longer supports "
+    "the proof scripts) all generated files fall back to their golden texts (coq_golden/, in-module GOLDEN) and the tie is the "
+    "sweep + guard correspondence",
     "oracles with stated specifications: scipy.ndimage.label (LabelSpec / wf_img, checked per sample by C02), "
     "scipy.optimize.least_squares (lsq_spec and its modelled preconditions, checked per call by C04), scipy cdist / numpy "
     "argmin (preconditions modelled as error values in Model/Tracking.v)",
@@ -843,31 +845,15 @@ def pool_map(fn, items, chunk=8):
 
 
 def prove_with_fallback(ctx) -> bool:
-    """proofs over the freshly generated text; if the translators of the rendering / refinement plumbing fail closed
-    (or their text no longer supports C03's / C04's proofs) the golden text is used for THOSE files -- the tie of this
-    property to the code is the sweep + the guard correspondence, which are run in any case"""
-    nb, ob, dc = len(ctx.broken), ctx.obligations, ctx.discharged
-    ok = vlib.prove(ctx, DEPS, gens=GENS)
-    if ok:
-        ctx.tie.append("translator (Gen_analysis, Gen_shapes, Gen_refine, Gen_spherical, Gen_droplet_basic regenerated from the "
-                       "current source; proofs over the fresh text) + error-kind sweep + guard correspondence inside Coq")
-        return True
-    first = ctx.broken[nb:]
-    if any(b.startswith("forbidden construct") or "assumptions outside" in b for b in first):
-        return False
-    import gen_refine
-    import gen_shapes
-    del ctx.broken[nb:]
-    ctx.obligations, ctx.discharged = ob, dc
-    ctx.notes.append("fresh generated text does not support the proofs -> golden Gen_shapes / Gen_refine: " + " | ".join(first)[:600])
-    with vlib.BuildLock():
-        vlib._write_if_changed(vlib.COQ_BUILD / "Gen" / "Gen_refine.v", gen_refine.GOLDEN)
-        vlib._write_if_changed(vlib.COQ_BUILD / "Gen" / "Gen_refine_R.v", gen_refine.GOLDEN_R)
-        vlib._write_if_changed(vlib.COQ_BUILD / "Gen" / "Gen_shapes.v", gen_shapes.GOLDEN)
-    ok2 = vlib.prove(ctx, DEPS, gens=["Gen_analysis", "Gen_spherical", "Gen_spherical_index", "Gen_droplet_basic"])
-    ctx.tie.append("tie: sweep + correspondence (translator of rendering / refinement plumbing fell back to the golden text)")
-    ctx.extra["translator_fell_back"] = True
-    return ok2
+    """proofs over the freshly generated text; when a translator fails closed (or the fresh text no longer supports
+    the proof scripts) the theorems are re-checked over the golden texts of ALL generated files of this property
+    (vlib.prove_with_fallback: coq_golden/ + the in-module GOLDEN of Gen_shapes / Gen_refine) -- the tie of this
+    property to the code is then the sweep + the guard correspondence (evaluated inside Coq against the golden
+    Gen.*), which are run at full strength in any case and need nothing from the translators' Python side"""
+    ok, fresh = vlib.prove_with_fallback(ctx, DEPS, gens=GENS)
+    ctx.tie.append("error-kind sweep over the implementation + guard correspondence inside Coq (Model/Totality.v over the "
+                   + ("regenerated" if fresh else "golden") + " Gen_analysis / Gen_shapes guards)")
+    return ok
 
 
 def strip(case: dict) -> dict:
